@@ -60,6 +60,10 @@ ExistsAt(fs, p) ==   \* os.Stat succeeds (follows links)
   LET r == Resolve(fs, p) IN
   r.ok /\ ((r.v \in DOMAIN fs /\ fs[r.v].kind # "symlink") \/ IsDirIn(fs, r.v))
 
+(* standard input as a layer: the name `-.<ext>` (any directory) *)
+StdinKey == "<stdin>"
+IsStdin(p) == StripExt(Base(p)) = "-"
+
 (* findFile: the file providing a layer name, under any supported extension;
    the property assumes exactly one *)
 FindFile(fs, stem) ==
@@ -123,7 +127,8 @@ WalkIn(fs, real, comps) == OpenWalk(fs, real, real, comps, 16)
 
 OpenInRoot(fs, rootx, abs) ==
   LET root == RootOf(rootx) IN
-  IF ~Inside(root.lex, abs) THEN Err("escapes")
+  IF IsStdin(abs) THEN (IF StdinKey \in DOMAIN fs THEN Ok(StdinKey) ELSE Err("missingfile"))
+  ELSE IF ~Inside(root.lex, abs) THEN Err("escapes")
   ELSE LET r == WalkIn(fs, root.real, RelParts(root.lex, abs)) IN
        IF ~r.ok THEN r
        ELSE IF r.v \in DOMAIN fs /\ fs[r.v].kind = "file" THEN r
@@ -175,6 +180,7 @@ ParentsFromFilename(fs, path) ==
 
 ParentPaths(fs, path, docs) ==
   LET d == DirectiveOf(docs) IN
+  IF IsStdin(path) /\ ~d.any THEN Ok(<<>>) ELSE
   IF d.isTrue \/ d.badList THEN Err("invalidparent")
   ELSE IF d.noParent THEN (IF Len(d.names) > 0 THEN Err("conflictingparent") ELSE Ok(<<>>))
   ELSE IF Len(d.names) > 0 THEN
@@ -233,6 +239,7 @@ MergeFiles(docs, par, files) ==
 (* FileMatch: the real file behind a (possibly virtual) input name *)
 FileMatch(fs, path) ==
   IF ExtOf(path) \notin Exts THEN Err("invalidtype")
+  ELSE IF IsStdin(path) THEN Ok(path)
   ELSE FindFile(fs, StripExt(path))
 
 (* one `bkl` run: inputs (absolute paths), skipParent, root.                *)
